@@ -55,8 +55,9 @@ def standard_run(ck, P, replay_cases=None):
                     samples.append({"case": c[:400], "impl": i[:400]})
 
         def retry_flaky(logger, nv, nf):
-            """Flake policy for scripts that contain real waits (DESIGN 2.3): a disagreement of a timed script counts
-            only if it reproduces when the script is re-run alone, twice more; otherwise the script is inconclusive."""
+            """Flake policy for scripts that contain real waits (DESIGN 2.3): a disagreement of a timed script counts if
+            it shows again in any of four re-runs of the script alone (a race in the code reproduces sometimes, with or
+            without load); a disagreement that never shows again without the load of the batch makes the script inconclusive."""
             timed = getattr(P, "TIMED_OPS", ())
             if not timed:
                 return
@@ -69,9 +70,14 @@ def standard_run(ck, P, replay_cases=None):
                 if f.case and f.case.split(" ", 1)[0] in timed:
                     suspects.append(f.case)
             cleared = set()
-            for c in dict.fromkeys(suspects):
-                reproduced = True
-                for _ in range(2):
+            suspects = list(dict.fromkeys(suspects))
+            if len(suspects) > 6:
+                # many timed scripts disagree at once: that is not a flake, keep them all (and do not spend minutes re-running)
+                ck.notes.append(f"{len(suspects)} timed scripts disagree: not re-run")
+                return
+            for c in suspects:
+                reproduced = False
+                for _ in range(4):
                     i1 = ck.run_impl(exe, [c], logger=logger, jobs=1, env_extra=getattr(P, "ENV", None))
                     if hasattr(P, "model_case"):
                         mc = P.model_case(c, i1[0])
@@ -86,8 +92,8 @@ def standard_run(ck, P, replay_cases=None):
                     ck.compare([c], i1, m1, proj=getattr(P, "PROJ", None), canon=getattr(P, "CANON", None))
                     bad = bool(ck.violations or ck.failures)
                     ck.violations, ck.failures, ck.coverage = sv, sf, scov
-                    if not bad:
-                        reproduced = False
+                    if bad:
+                        reproduced = True       # seen again without the load of the batch: not a flake of the harness
                         break
                 if not reproduced:
                     cleared.add(c)
